@@ -292,7 +292,9 @@ theorem evalImpl_comp_inv {rec : Rec} {root : Node} {w : World} {rs : Bool} {f :
     · cases h
     · rename_i hs
       split at h
-      · cases h
+      · split at h
+        · split at h <;> cases h
+        · cases h
       · rename_i sig hsig
         split at h
         · cases h
@@ -312,7 +314,9 @@ theorem evalImpl_comp_inv {rec : Rec} {root : Node} {w : World} {rs : Bool} {f :
     · cases h
     · rename_i hs
       split at h
-      · cases h
+      · split at h
+        · split at h <;> cases h
+        · cases h
       · rename_i sig hsig
         split at h
         · cases h
